@@ -196,14 +196,25 @@ Record secret := {
   s_ca : bool       (* has a CA cert (GetCaCert succeeds) *)
 }.
 
+(* a private key provider configuration, by kind (the harness uses one fixed configuration per kind) *)
+Inductive pkp := PNone | PCryptomb | PQat.
+Definition pkp_eqb (a b : pkp) : bool :=
+  match a, b with PNone, PNone | PCryptomb, PCryptomb | PQat, PQat => true | _, _ => false end.
+
 Record world := {
   clusters : list string;                   (* ids ForCluster knows *)
   config_cluster : string;
   secrets : list secret;
   configmaps : list (string * string);      (* (namespace, name) with a ca.crt, config cluster only *)
   authz : list (string * string * string);  (* (cluster, namespace, service account) for which Authorize succeeds *)
-  mesh_pkp : N                              (* meshConfig.DefaultConfig.PrivateKeyProvider: 0 none, 1 cryptomb, 2 qat *)
+  mesh_pkp : pkp;                           (* meshConfig.DefaultConfig.PrivateKeyProvider *)
+  h_cryptomb : string;                      (* xxhash (decimal) of the cryptomb / qat provider configuration in use: *)
+  h_qat : string                            (* opaque tokens, read back by the harness from real cache keys *)
 }.
+
+(* strconv.FormatUint(xxhash(pkpConf.String())), "" without provider *)
+Definition pkp_hash (w : world) (k : pkp) : string :=
+  match k with PNone => "" | PCryptomb => h_cryptomb w | PQat => h_qat w end.
 
 Definition known_cluster (w : world) (c : string) : bool := existsb (String.eqb c) (clusters w).
 
@@ -222,8 +233,8 @@ Definition src_eqb (a b : src) : bool :=
 (* what an envoy tls Secret carries *)
 Inductive content :=
 | CCa (from : src)             (* validation context only: no private key *)
-| CTls (from : src) (fmt : N). (* tls_certificate with the private key of [from]; fmt = where the key sits:
-                                  0 inline private_key, 1 cryptomb provider, 2 qat provider *)
+| CTls (from : src) (fmt : pkp). (* tls_certificate with the private key of [from]; fmt = where the key sits:
+                                    inline private_key, cryptomb provider config, qat provider config *)
 
 Definition entry := (string * content)%type.    (* envoy Secret name, content *)
 
@@ -258,10 +269,8 @@ Definition get_configmap_ca (w : world) (cl name ns : string) : option src :=
 Record proxy := {
   verified : option identity;        (* Proxy.VerifiedIdentity *)
   p_cluster : string;                (* Proxy.Metadata.ClusterID (claimed) *)
-  p_cfg : option N;                  (* Metadata.ProxyConfig: None = not sent; Some k = sent, with private key
-                                        provider k (0 none, 1 cryptomb, 2 qat) *)
-  p_pkp : string;                    (* parseResources' pkpConfHash: hash of the provider in Metadata.ProxyConfig,
-                                        "" if there is no ProxyConfig or it has no provider *)
+  p_cfg : option pkp;                (* Metadata.ProxyConfig: None = not sent; Some k = sent, with private key
+                                        provider k *)
   p_refs : option (list string)      (* MergedGateway.VerifiedCertificateReferences; None = no MergedGateway *)
 }.
 
@@ -328,13 +337,17 @@ Definition allowed (p : proxy) (vns : string) (auth : bool) (sr : sres) : bool :
 Definition filter_authorized (p : proxy) (vns : string) (auth : bool) (rs : list sres) : list sres :=
   filter (allowed p vns auth) rs.
 
-(* the provider toEnvoyTLSSecret uses: proxy.Metadata.ProxyConfigOrDefault(meshConfig.GetDefaultConfig()) *)
-Definition eff_fmt (w : world) (p : proxy) : N :=
+(* the provider both parseResources (for the cache key, since fix 31f7dc3) and toEnvoyTLSSecret (for the
+   encoding) use: proxy.Metadata.ProxyConfigOrDefault(meshConfig.GetDefaultConfig()).GetPrivateKeyProvider() *)
+Definition eff_fmt (w : world) (p : proxy) : pkp :=
   match p_cfg p with Some k => k | None => mesh_pkp w end.
+
+(* parseResources' pkpConfHashStr, the last component of the cache key *)
+Definition p_pkp (w : world) (p : proxy) : string := pkp_hash w (eff_fmt w p).
 
 (* SecretGen.generate: controller chosen by type, then the three fetch paths; fmt = eff_fmt of the
    requesting proxy *)
-Definition build (w : world) (pcl : string) (fmt : N) (sr : sres) : option entry :=
+Definition build (w : world) (pcl : string) (fmt : pkp) (sr : sres) : option entry :=
   let cl := match sr_type sr with
             | TGateway | TConfigMap => config_cluster w
             | _ => pcl
@@ -372,12 +385,12 @@ Fixpoint gen_loop (w : world) (p : proxy) (r : req) (rs : list sres) (c : cache)
   | sr :: rest =>
       if negb (wanted r sr) then gen_loop w p r rest c
       else
-        match cache_get (cache_key sr (p_pkp p)) c with
+        match cache_get (cache_key sr (p_pkp w p)) c with
         | Some e => let '(out, c') := gen_loop w p r rest c in (e :: out, c')
         | None =>
             match build w (p_cluster p) (eff_fmt w p) sr with
             | Some e =>
-                let c1 := if req_stores r then (cache_key sr (p_pkp p), (related (sres_ckey sr), e)) :: c else c in
+                let c1 := if req_stores r then (cache_key sr (p_pkp w p), (related (sres_ckey sr), e)) :: c else c in
                 let '(out, c') := gen_loop w p r rest c1 in (e :: out, c')
             | None => gen_loop w p r rest c
             end
@@ -469,10 +482,6 @@ Definition entitled (w : world) (p : proxy) (s : src) : bool :=
 Definition key_of (e : entry) : option src :=
   match snd e with CTls s _ => Some s | CCa _ => None end.
 
-(* an entry without the information where the key sits *)
-Definition erase (e : entry) : entry :=
-  (fst e, match snd e with CTls s _ => CTls s 0 | c => c end).
-
 (* every private key in a response is one the receiver is entitled to *)
 Definition keys_entitled (w : world) (p : proxy) (out : list entry) : bool :=
   forallb (fun e => match key_of e with Some s => entitled w p s | None => true end) out.
@@ -485,17 +494,14 @@ Fixpoint no_slash (s : string) : bool :=
   | String a r => negb (Ascii.eqb a slash) && no_slash r
   end.
 
-Definition wf_world (w : world) : bool := forallb no_slash (clusters w).
+(* cluster ids and the provider hashes are "/"-free; the hashes of distinct providers are distinct *)
+Definition wf_world (w : world) : bool :=
+  forallb no_slash (clusters w) && no_slash (h_cryptomb w) && no_slash (h_qat w)
+  && negb (String.eqb (h_cryptomb w) "") && negb (String.eqb (h_qat w) "")
+  && negb (String.eqb (h_cryptomb w) (h_qat w)).
 Definition wf_proxy (p : proxy) : bool :=
-  no_slash (p_pkp p) && match verified p with Some i => no_slash (id_ns i) | None => true end.
+  match verified p with Some i => no_slash (id_ns i) | None => true end.
 Definition wf_op (o : op) : bool := match o with OGen p _ _ => wf_proxy p | _ => true end.
-
-(* the cache key separates proxies by p_pkp only; [fmt_by_hash F] says that the format a proxy is served
-   is a function F of that hash (false e.g. when the mesh default has a provider and one proxy sends no
-   ProxyConfig while another sends one without provider: both hash to "") *)
-Definition fmt_by_hash (F : string -> N) (w : world) (p : proxy) : bool := N.eqb (eff_fmt w p) (F (p_pkp p)).
-Definition fmt_op (F : string -> N) (w : world) (o : op) : bool :=
-  match o with OGen p _ _ => fmt_by_hash F w p | _ => true end.
 
 (* ---------------------------------------------------------------- kube/secrets.go: CredentialsController.Authorize *)
 
